@@ -47,8 +47,10 @@ PROPS = {
         rule="PARTIAL (DESIGN 5 C16, 8): the theorems cover go-task's own decode / compile / snippet / include-location logic over abstract node trees; "
              "yaml.v3, text/template, regexp, chroma, giturls are oracles in the model and are covered by this fuzz only (not proof). "
              "cases: (tree) node trees generated along the Taskfile schema with deviations at every node (null / empty map / empty seq / wrong kind, nulls in list positions, "
-             "regex metacharacters in names, odd include locations, timestamps), every single-node mutation of a maximal well-formed Taskfile (a third per run in the quick tier, all in the thorough tier), "
-             "the same mutations and random deviations applied to an INCLUDED Taskfile reached directly, flattened and at depth 2 (Tasks.Merge deep-copies every field: a null entry in every list position is always taken, the other mutations rotate), "
+             "regex metacharacters in names, odd include locations, timestamps), every single-node mutation of a maximal well-formed Taskfile (a quarter per run in the quick tier, all in the thorough tier), "
+             "the same mutations and random deviations applied to an INCLUDED Taskfile reached directly, flattened and at depth 2 (Tasks.Merge deep-copies every field: a null entry in every list position is taken in two of the four shapes per quick run, the other mutations rotate; all of them in the thorough tier), "
+             "(inc-options) includes whose options name tasks that exist in the included file: excludes: of existing tasks (default among them), aliases, internal, vars, a root task shadowing the namespace, depth 1 and 2, flattened or not; "
+             "(reader) well-formed deep include chains (depth 3-12, also flattened) and wide / wide-and-nested trees (4-12 siblings, each with includes of its own): reading must terminate; a deadline hit while every goroutine of the child is blocked is an impl_failure of kind deadlock (no retry), "
              "(concurrency) valid Taskfiles with 50-160 wildcard tasks whose first lookups happen at once (a task with that many wildcard-resolved deps, Run with Parallel, and the CLI with --parallel): a fatal error of the Go runtime ends the child process and is an impl_failure of kind fatal, "
              "serialised to YAML and run in-process through the REAL yaml.Unmarshal into ast.Taskfile -> Executor.Setup -> GetTask/FastCompiledTask/CompiledTask of every task and of a few requested names "
              "-> ListTasks (plain, JSON) -> dry Run of every task, each under recover and a deadline in a child process that is replaced when a goroutine of go-task panics or hangs; "
@@ -58,7 +60,7 @@ PROPS = {
              "R_mon = mon_C16 (no panic, no hang, documented exit code) on the observed outcome; R_decode = exact outcome of the decoder vs decode_taskfile; "
              "R_tree = observed outcome fits predict (panic site in must++may, no panic when must is non-empty is a disagreement, exact outcome when the model determines it); "
              "R_snip / R_loc / R_wild = panic-or-not vs snippet_bounds / new_node / wildcard_compile. The model variant is `current`, built from the extracted guard facts. "
-             "A real panic, fatal error or hang is an impl_failure whatever the model says (a hang during the dry run is inconclusive: executing is outside C16's termination clause). "
+             "A real panic, fatal error or hang is an impl_failure whatever the model says (only a hang during the dry RUN of tasks is inconclusive: executing is outside C16's termination clause; a hang while reading, merging, compiling or listing is a violation). "
              "non-trivial = at least one probe ran; distinct = distinct (kind, input bytes, outcome) tuples",
         assumptions=[
             "claimed level: partial — bytes -> node tree (yaml.v3's scanner/parser/resolver), template parsing and execution, regexp compilation, chroma highlighting and giturls parsing are NOT modelled; "
